@@ -31,6 +31,22 @@ int main()
             if (w == 32) return ipw<uint32_t>(a[1], a[2]);
             if (w == 64) return ipw<uint64_t>(a[1], a[2]);
         }
+        if (kind == "rp2rle") {
+            // the graph of round_pow2<uint32_t> on [lo, hi] as runs "start:value" (every input is evaluated)
+            uint64_t lo = vh::u64(a[0]), hi = vh::u64(a[1]);
+            std::string out;
+            uint32_t last = 0;
+            bool first = true;
+            for (uint64_t i = lo; i <= hi; ++i) {
+                uint32_t v = covfie::utility::round_pow2<uint32_t>(static_cast<uint32_t>(i));
+                if (first || v != last) {
+                    out += (first ? "" : " ") + std::to_string(i) + ":" + std::to_string(v);
+                    last = v;
+                    first = false;
+                }
+            }
+            return out;
+        }
         return "BAD_CASE";
     });
 }
